@@ -188,6 +188,7 @@ class Ctx:
             'skipped': self.skipped,
             'units_done': self.units_done,
             'units_total': self.units_total,
+            'lines': {k: sorted(v) for k, v in getattr(getattr(self, 'coverage', None), 'lines', {}).items()},
         }
 
 
@@ -209,10 +210,68 @@ def _in_code_under_test(tb, src: str) -> bool:
     return False
 
 
+class LineCoverage:
+    """One-shot LINE events (sys.monitoring, DISABLE after the first hit) restricted to the code
+    under test: which statements of /repo/src/gemdat did the workload actually reach."""
+
+    TOOL = 3
+
+    def __init__(self, src):
+        self.src = src + os.sep
+        self.lines: dict[str, set] = {}
+        self.on = False
+
+    def start(self):
+        mon = getattr(sys, 'monitoring', None)
+        if mon is None or os.environ.get('GV_NO_COVERAGE'):
+            return
+        try:
+            mon.use_tool_id(self.TOOL, 'gv-coverage')
+        except ValueError:
+            return
+
+        def on_line(code, line):
+            fn = code.co_filename
+            if fn.startswith(self.src):
+                self.lines.setdefault(fn[len(self.src):], set()).add(line)
+            return mon.DISABLE
+
+        mon.register_callback(self.TOOL, mon.events.LINE, on_line)
+        mon.set_events(self.TOOL, mon.events.LINE)
+        self.on = True
+
+    def stop(self):
+        if not self.on:
+            return
+        mon = sys.monitoring
+        mon.set_events(self.TOOL, 0)
+        mon.register_callback(self.TOOL, mon.events.LINE, None)
+        mon.free_tool_id(self.TOOL)
+        self.on = False
+
+
+def executable_lines(path):
+    """Line numbers that carry code in a source file (from the compiled code objects)."""
+    try:
+        code = compile(open(path).read(), path, 'exec')
+    except Exception:  # noqa: BLE001
+        return set()
+    out = set()
+    stack = [code]
+    while stack:
+        c = stack.pop()
+        out.update(ln for _, _, ln in c.co_lines() if ln is not None)
+        stack.extend(k for k in c.co_consts if hasattr(k, 'co_lines'))
+    return out
+
+
 def run_units(mod, units, seed, tier, budget_s, only=None) -> Ctx:
     src = bind_code_under_test()
     ctx = Ctx(mod.ID, seed, tier)
     ctx.units_total = len(units)
+    cov = LineCoverage(src)
+    cov.start()
+    ctx.coverage = cov
     if hasattr(mod, 'setup'):
         mod.setup(ctx)
     t0 = time.time()
@@ -243,6 +302,7 @@ def run_units(mod, units, seed, tier, budget_s, only=None) -> Ctx:
         ctx.units_done += 1
     if hasattr(mod, 'teardown'):
         mod.teardown(ctx)
+    cov.stop()
     return ctx
 
 
@@ -287,6 +347,7 @@ def fold(results: list[dict]) -> dict:
         'skipped': 0,
         'units_done': 0,
         'units_total': 0,
+        'lines': {},
     }
     for r in results:
         tot['evaluations'] += r['evaluations']
@@ -303,6 +364,8 @@ def fold(results: list[dict]) -> dict:
         tot['skipped'] += r['skipped']
         tot['units_done'] += r['units_done']
         tot['units_total'] += r['units_total']
+        for k, v in r.get('lines', {}).items():
+            tot['lines'].setdefault(k, set()).update(v)
     return tot
 
 
@@ -465,6 +528,7 @@ def write_evidence(mod, pid, tier, seed, tot, wall, n_viol, nshards, inconclusiv
         'shards': nshards,
         'code_under_test': src_dir(),
     }
+    cov['statement_coverage_of_anchor_files'] = anchor_coverage(pid, tot.get('lines', {}))
     if hasattr(mod, 'exhaustive'):
         ex = mod.exhaustive(tier)
         if ex:
@@ -485,6 +549,47 @@ def write_evidence(mod, pid, tier, seed, tot, wall, n_viol, nshards, inconclusiv
     with open(tmp, 'w') as f:
         json.dump(ev, f, indent=1)
     os.replace(tmp, path)
+
+
+def anchor_coverage(pid, lines):
+    """Per anchor file of the property: statements of /repo/src reached by this run's workload
+    (sys.monitoring LINE events, union over shards).  Informational."""
+    out = {}
+    try:
+        anchors = []
+        for ln in open(os.path.join(VERIF, 'properties.jsonl')):
+            p = json.loads(ln)
+            if p['id'] == pid:
+                anchors = p['anchors']['files']
+        for f in anchors:
+            rel = f[len('src/'):] if f.startswith('src/') else f
+            path = os.path.join(src_dir(), rel)
+            exe = executable_lines(path)
+            hit = set(lines.get(rel, ())) & exe if exe else set(lines.get(rel, ()))
+            per_fn = {}
+            try:
+                import ast
+
+                tree = ast.parse(open(path).read())
+
+                def walk(node, prefix):
+                    for ch in ast.iter_child_nodes(node):
+                        if isinstance(ch, (ast.FunctionDef, ast.AsyncFunctionDef)):
+                            body = {ln for ln in exe if ch.body[0].lineno <= ln <= ch.end_lineno}
+                            got = body & hit
+                            if got:
+                                per_fn[prefix + ch.name] = f'{len(got)}/{len(body)}'
+                            walk(ch, prefix + ch.name + '.')
+                        elif isinstance(ch, ast.ClassDef):
+                            walk(ch, prefix + ch.name + '.')
+
+                walk(tree, '')
+            except Exception:  # noqa: BLE001
+                pass
+            out[f] = {'statements_reached': len(hit), 'statements_total': len(exe), 'functions_reached(statements hit/total)': per_fn}
+    except Exception as exc:  # noqa: BLE001
+        out['error'] = repr(exc)
+    return out
 
 
 def replay(path: str) -> int:
